@@ -458,7 +458,15 @@ impl<'a> Gen<'a> {
             3 => {
                 self.budget -= 1;
                 let mark = self.scope.len();
-                let l = self.gen_ins(Ctx { guard: true, ..inner });
+                let l = if self.rng.chance(1, 7) {
+                    // the left branch forwards a call (in a par whose other side is complete) and then fails
+                    // in the same run
+                    let c = self.gen_call(Ctx { guard: false, ..inner }, Some("f"));
+                    let n = self.id();
+                    seq(par(c, Ins::Null), Ins::Fail(FailBody::Lit(1 + self.rng.below(900) as i64, format!("fail{n}"))))
+                } else {
+                    self.gen_ins(Ctx { guard: true, ..inner })
+                };
                 self.scope.truncate(mark);
                 let r = self.gen_ins(Ctx { guard: false, in_catch: true, ..inner });
                 self.scope.truncate(mark);
